@@ -678,15 +678,11 @@ fn v5_incoming_pubrel() {
         Ok(out) => {
             assert!(was_set, "C10 pubrel.ok_only_for_known_id");
             assert!(!st.incoming_pub.contains(pkid as usize) && st.incoming_pub.count_ones(..) == ones - 1, "C10 pubrel.id_forgotten_only_that");
-            if success {
-                assert!(matches!(out, Some(Packet::PubComp(a)) if a.pkid == pkid), "C10 pubrel.pubcomp_same_id");
-                assert!(h.events == g.events + 1, "C10 pubrel.one_event");
-                assert!(matches!(st.events.back(), Some(Event::Outgoing(Outgoing::PubComp(x))) if *x == pkid), "C10 pubrel.event_kind");
-            } else {
-                // a release carrying a failure reason is not answered: nothing is written, so nothing may be announced
-                assert!(out.is_none(), "C10 pubrel.failure_reason_not_answered");
-                assert!(h.events == g.events, "C10 pubrel.no_event_without_write");
-            }
+            // the property: a release of a known id is answered with PUBCOMP — whatever reason code it carries
+            let _ = success;
+            assert!(matches!(out, Some(Packet::PubComp(a)) if a.pkid == pkid), "C10 pubrel.pubcomp_same_id");
+            assert!(h.events == g.events + 1, "C10 pubrel.one_event");
+            assert!(matches!(st.events.back(), Some(Event::Outgoing(Outgoing::PubComp(x))) if *x == pkid), "C10 pubrel.event_kind");
         }
         Err(e) => {
             assert!(!was_set, "C10 pubrel.err_only_if_unknown");
